@@ -701,10 +701,10 @@ fn eval(c: &Case, want_shapes: bool) -> Option<Outcome> {
         }
         let tagged = adblock::verif_hooks::filter_tag(f).is_some();
         if f.is_redirect() && !tagged {
-            scan.push((f.is_exception(), f.modifier_option.clone(), line.clone()));
+            scan.push((f.is_exception(), option_value(line, &["redirect", "redirect-rule"]), line.clone()));
         }
         if f.is_redirect() && tagged && active_tag(f, &c.tags) {
-            enabled_tagged.push((f.is_exception(), f.modifier_option.clone(), line.clone()));
+            enabled_tagged.push((f.is_exception(), option_value(line, &["redirect", "redirect-rule"]), line.clone()));
             if !f.is_exception() && !f.is_generic_hide() && f.also_block_redirect() && !f.is_important() {
                 tagged_redirect_opt_matches = true;
             }
